@@ -77,8 +77,23 @@ fn finish(run: &Run, flavour: usize, ctx: &mut Ctx) {
             2 => sc.recover(&user, Some(false), None, if recv0 == sc.staker { None } else { Some(&recv0) }),
             _ => {
                 // admin-forced: all refundable packets of that receiver and denom
-                let sel: Vec<u64> = refundable.iter().filter(|x| x.1 == recv0 && x.2 == den0).map(|x| x.0).collect();
+                let mut sel: Vec<u64> = refundable.iter().filter(|x| x.1 == recv0 && x.2 == den0).map(|x| x.0).collect();
                 let _ = seq0;
+                // a slip of the admin rather than dishonesty: one packet named twice, next to its first mention or
+                // with other packets in between; each named packet is owed exactly once whatever the spelling
+                if sel.len() >= 2 {
+                    match ctx.leaves % 3 {
+                        1 => {
+                            sel.push(sel[0]);
+                            ctx.acc.count("c07enum:forced_duplicate:apart");
+                        }
+                        2 => {
+                            sel.insert(1, sel[0]);
+                            ctx.acc.count("c07enum:forced_duplicate:adjacent");
+                        }
+                        _ => {}
+                    }
+                }
                 sc.recover(&sc.admin, None, Some(sel), Some(&recv0))
             }
         };
